@@ -110,9 +110,16 @@ def handle_events(sol_tuple, events, consts, direction, is_terminal, attributes)
         verbose=False
     )
 
-    g = [ev_f[idx](t_root - (t_next - t_prev) * D.epsilon(roots[0].dtype) ** 0.5) for idx, t_root in enumerate(roots)]
+    # the probes on either side of a root must be distinguishable from the root itself: after a very short step (t_next - t_prev) * eps**0.5
+    # is below the spacing of the floating-point numbers at the root, all three samples coincide and every direction would be accepted
+    def __probe(t_root):
+        width = (t_next - t_prev) * D.epsilon(roots[0].dtype) ** 0.5
+        floor = D.epsilon(roots[0].dtype) * D.ar_numpy.maximum(1.0, D.ar_numpy.abs(t_root))
+        return D.ar_numpy.where(D.ar_numpy.abs(width) < floor, D.ar_numpy.sign(t_next - t_prev) * floor, width)
+
+    g = [ev_f[idx](t_root - __probe(t_root)) for idx, t_root in enumerate(roots)]
     g_cen = [ev_f[idx](t_root) for idx, t_root in enumerate(roots)]
-    g_new = [ev_f[idx](t_root + (t_next - t_prev) * D.epsilon(roots[0].dtype) ** 0.5) for idx, t_root in enumerate(roots)]
+    g_new = [ev_f[idx](t_root + __probe(t_root)) for idx, t_root in enumerate(roots)]
 
     g = D.ar_numpy.stack(g)
     g_cen = D.ar_numpy.stack(g_cen)
@@ -125,10 +132,10 @@ def handle_events(sol_tuple, events, consts, direction, is_terminal, attributes)
     down = ((g >= 0) & (g_new <= 0)) | ((g >= 0) & (g_cen <= 0)) | ((g_cen >= 0) & (g_new <= 0))
 
     for receptive_field in [1.0, 2.0, 3.0]:
-        g = [ev_f[idx](t_root - receptive_field * (t_next - t_prev) * D.epsilon(roots[0].dtype) ** 0.75) for idx, t_root in
-             enumerate(roots)]
-        g_new = [ev_f[idx](t_root + receptive_field * (t_next - t_prev) * D.epsilon(roots[0].dtype) ** 0.75) for idx, t_root in
-                 enumerate(roots)]
+        fine = receptive_field * (t_next - t_prev) * D.epsilon(roots[0].dtype) ** 0.75
+        # (a fine probe that coincides with the root carries no information: the wider sample is kept)
+        g = [ev_f[idx](t_root - fine) if t_root - fine != t_root else g[idx] for idx, t_root in enumerate(roots)]
+        g_new = [ev_f[idx](t_root + fine) if t_root + fine != t_root else g_new[idx] for idx, t_root in enumerate(roots)]
 
         g = D.ar_numpy.stack(g)
         g_new = D.ar_numpy.stack(g_new)
